@@ -37,6 +37,9 @@ func udpPayloadID(b []byte) (uint64, bool) {
 
 // replyPayload is what a target sends back for request id, reply index i (1-based).
 func replyPayload(id uint64, i int, size int) []byte {
+	if size == 0 {
+		return []byte{} // an empty datagram: legal UDP, carries no id
+	}
 	if size < 8 {
 		size = 8
 	}
